@@ -10,7 +10,7 @@ import sys
 import time
 
 ROOT = os.path.dirname(os.path.dirname(os.path.abspath(__file__)))
-SCR = "/tmp/vseed"
+SCR = os.environ.get("VSEED_DIR", "/tmp/vseed")
 ALL = ["C%02d" % i for i in range(1, 21)]
 
 
